@@ -498,6 +498,34 @@ example :
 
 end PsycheModel.Declaration
 
+/-! ## FIRST sets, REGENERATED from the source on every run (`translators/facts.py` -> `Generated/Facts.lean`): whatever keyword
+`parseDeclarationSpecifiers` takes as a specifier must send a statement - and the first clause of a `for` - to the declaration parser
+(6.8.2: a block item is a declaration or a statement; 6.8.5: the first clause of a `for` may be a declaration).  `_Alignas` was missing from
+both lists on the pinned tree: `{ _Alignas(8) int z; }` drew "expected expression" (repaired). -/
+namespace PsycheModel.Generated.Facts
+open PsycheModel.Generated
+
+/-- the project's own quantifier extension and the storage-class keyword a `for` clause cannot carry meaningfully are set aside -/
+def blockDeclExempt : List Kind := [.Keyword_ExtPSY__Exists, .Keyword_ExtPSY__Forall]
+
+theorem every_specifier_keyword_begins_a_block_declaration :
+    declSpecStart.all (fun k => stmtDeclStart.contains k || blockDeclExempt.contains k) = true := by decide
+
+theorem every_specifier_keyword_begins_a_for_declaration :
+    declSpecStart.all (fun k => forDeclStart.contains k || blockDeclExempt.contains k) = true := by decide
+
+/-- … and the two statement-level lists agree up to `_Static_assert` (a declaration, but not one a `for` clause takes) -/
+theorem statement_and_for_lists_agree :
+    stmtDeclStart.all (fun k => forDeclStart.contains k || k == .Keyword__Static_assert) = true ∧
+    forDeclStart.all (fun k => stmtDeclStart.contains k) = true := by decide
+
+/-- after `(`, every keyword a specifier-qualifier list may begin with starts a type name (cast, compound literal); storage classes, attributes and
+asm labels aside -/
+theorem every_type_keyword_starts_a_type_name :
+    specQualStart.all (fun k => castTypeStart.contains k || [Kind.Keyword_ExtGNU___asm__, .Keyword_ExtGNU___attribute__, .Keyword_static].contains k) = true := by decide
+
+end PsycheModel.Generated.Facts
+
 namespace PsycheModel.Expr
 /-- with the parser's own tables, every expression tree the C11 grammar derives is accepted by the model of `parseExpression` -/
 theorem valid_expression_accepted (e : E) (hok : ok realT e = true) : ∃ fuel, (nary realT fuel 1 (pp realT e)).isSome = true := by
